@@ -86,10 +86,25 @@ Definition value_bytes (r : reg) : res (list N) :=
   | Some i => ROk (le_bytes (r_ser i) (snd r))
   end.
 
-(** [ValueFromBytes]: the key needs exactly 32 bytes; the others read a
-    fixed-width little-endian integer from the front (short input is an error,
-    extra bytes are ignored) and convert it to the register's Go type. *)
+(** [ValueFromBytes]: a value of exactly the register's width (the key: 32 bytes; the others:
+    the bytes their parser table reads) is the little-endian integer, converted to the
+    register's Go type; a short input is an error (binary.Read), and so is an input with
+    bytes left over (repaired in 4a8d65e). *)
 Definition value_from_bytes (id : string) (b : list N) : res reg :=
+  match lookup id registry with
+  | None => RErr
+  | Some i =>
+      if String.eqb id key_id then
+        if Nat.eqb (List.length b) 32 then ROk (id, le_value b) else RErr
+      else
+        if Nat.eqb (List.length b) (r_parser i) then ROk (id, le_value b mod 2 ^ r_bits i)
+        else RErr
+  end.
+
+(** the code before 4a8d65e (former finding C16-from-bytes-trailing-bytes-accepted): the
+    fixed-width registers read their integer from the front and ignored what followed.
+    Kept for the witness theorems only; no case is checked against it. *)
+Definition value_from_bytes_legacy (id : string) (b : list N) : res reg :=
   match lookup id registry with
   | None => RErr
   | Some i =>
